@@ -262,8 +262,6 @@ def build_subst_contract(ctx, py):
 
 
 def _enclosing(tree, node) -> str:
-    best = '<module>'
-    for n in ast.walk(tree):
-        if isinstance(n, (ast.FunctionDef, ast.ClassDef)) and n.lineno <= node.lineno <= getattr(n, 'end_lineno', n.lineno):
-            best = n.name if isinstance(n, ast.FunctionDef) else best
-    return best
+    from ..core.pyfacts import enclosing_def
+    f_ = enclosing_def(tree, node)
+    return f_.name if f_ is not None else '<module>'
